@@ -5,10 +5,12 @@ use crate::engine::Property;
 pub mod c03;
 pub mod c12;
 pub mod c13;
+pub mod c14;
+pub mod c15;
 pub mod c28;
 
 pub fn all() -> Vec<&'static dyn Property> {
-    vec![&c03::C03, &c12::C12, &c13::C13, &c28::C28]
+    vec![&c03::C03, &c12::C12, &c13::C13, &c14::C14, &c15::C15, &c28::C28]
 }
 
 pub fn find(id: &str) -> Option<&'static dyn Property> {
